@@ -201,6 +201,12 @@ def materialise(case: dict) -> tuple[list[dict], list[Record | None], list[int]]
         elif kind == "reopen":
             ops.append({"op": "reopen", "db": op[1]})
             records.append(None)
+        elif kind == "batch_begin":
+            ops.append({"op": "batch_begin"})
+            records.append(None)
+        elif kind == "batch_end":
+            ops.append({"op": "batch_end", "end": op[1]})
+            records.append(None)
         else:
             raise HarnessError(f"unknown op {op}")
     return ops, records, sorted(pseuds)
@@ -286,7 +292,7 @@ def judge(case: dict, d: str, rc: int, log: list[dict], records: list[Record | N
     from ipv8.keyvault.crypto import default_eccrypto
 
     acked = {r["i"] for r in log if r["t"] == "ack"}
-    settled = acked | {r["i"] for r in log if r["t"] == "rej"}
+    settled = acked | {r["i"] for r in log if r["t"] in ("rej", "ret")}
     in_progress = 0
     while in_progress in settled:
         in_progress += 1
@@ -543,6 +549,19 @@ SCRIPTS: list[tuple[str, dict]] = [
                               ops=[("token", 0, 1), ("token", 1, 1), ("meta", 0, 0), ("att", 0, 0)])),
     # re-delivery: a record that is already stored is inserted again (ignored), then new records follow in the same
     # and in other tables - whatever bookkeeping an insert keeps about "nothing changed" must not leak into the next one
+    # the documented "with database:" block groups commits: records inserted inside are durable once the block has been
+    # left normally; a block left through an exception (an ordinary one caught by the application, or IgnoreCommits)
+    # promises nothing for its own records - but everything inserted afterwards is durable again when its call returns
+    ("batch-ok", _script(tokens=[(0, -1, 8), (0, 0, 8)], metas=[(0, 2), (1, 2)],
+                         ops=[("token", 0, 1), ("batch_begin",), ("meta", 0, 0), ("token", 1, 1), ("meta", 1, 0),
+                              ("batch_end", "ok"), ("att", 0, 0)])),
+    ("batch-failed-then-inserts", _script(tokens=[(0, -1, 8), (0, 0, 8), (0, 1, 8)], metas=[(0, 2), (1, 2), (2, 2)],
+                                          ops=[("token", 0, 1), ("meta", 0, 0), ("batch_begin",), ("token", 1, 1),
+                                               ("batch_end", "raise"), ("meta", 1, 0), ("token", 2, 1), ("meta", 2, 0),
+                                               ("att", 0, 0), ("att", 1, 1)])),
+    ("batch-ignored-then-inserts", _script(tokens=[(0, -1, 8), (0, 0, 8)], metas=[(0, 2), (1, 2)],
+                                           ops=[("token", 0, 1), ("batch_begin",), ("meta", 0, 0), ("batch_end", "ignore"),
+                                                ("token", 1, 1), ("meta", 1, 0), ("att", 1, 0)])),
     ("redelivered-metadata", _script(tokens=[(0, -1, 8), (0, 0, 8)], metas=[(0, 2), (1, 2)],
                                      ops=[("token", 0, 1), ("meta", 0, 0), ("token", 1, 1), ("meta", 0, 0),
                                           ("meta", 1, 0), ("att", 0, 0)])),
